@@ -38,7 +38,8 @@ fn run_case(kind: &str, idx: u64, rng: &mut Rng, mon: &mut Mon, _tier: Tier) {
     let depth = rng.usize(4);
     let layers = gen_stack(rng, depth, false, &["Tool", "Base", "Frame", "Parallelogram"]);
     let eps = *rng.pick(&[1e-7, 1e-6, 1e-5]);
-    let q = if rng.bool(0.2) { joints_resting(rng, PI) } else { joints_uniform(rng, PI) };
+    // (a fifth of the joint vectors reaches beyond half a turn: couplings with non-integer scaling are not 2*pi-periodic in the driven joint)
+    let q = match rng.usize(10) { 0 | 1 => joints_resting(rng, PI), 2 | 3 => joints_uniform(rng, 2.0 * PI), _ => joints_uniform(rng, PI) };
     if kind == "shared_history" {
         // History workload: robots sharing their link lengths (differing in signs / offsets / c4) are
         // evaluated at the bit-identical joint vector, step and stack one after the other on the same
@@ -202,6 +203,14 @@ fn evaluate(idx: u64, robot: &Robot, layers: &Vec<Layer>, q: &[f64; 6], eps: f64
     let ax = [rng.range(-1.0, 1.0), rng.range(-1.0, 1.0), rng.range(-1.0, 1.0)];
     let iso = nalgebra::Isometry3::new(nalgebra::Vector3::new(f[0], f[1], f[2]), nalgebra::Vector3::new(ax[0], ax[1], ax[2]));
     let sa = iso.rotation.scaled_axis();
+    // the same rotation handed over with the negated quaternion (products of rotations across hemispheres
+    // produce it); the rotation vector it encodes is still `sa`
+    let negate = rng.bool(0.3);
+    let flip = |i: nalgebra::Isometry3<f64>| if negate { nalgebra::Isometry3::from_parts(i.translation, nalgebra::Unit::new_unchecked(-i.rotation.into_inner())) } else { i };
+    let iso = flip(iso);
+    if negate {
+        mon.count("isometries_with_negated_quaternion");
+    }
     let v6 = Vector6::new(f[0], f[1], f[2], sa.x, sa.y, sa.z);
     let t_iso = jac.torques(&iso);
     let t_vec = jac.torques_from_vector(&v6);
@@ -232,7 +241,7 @@ fn evaluate(idx: u64, robot: &Robot, layers: &Vec<Layer>, q: &[f64; 6], eps: f64
                 }
                 // velocities(iso) and velocities_fixed agree with the vector form
                 let xi = Vector6::new(x[0], x[1], x[2], sa.x, sa.y, sa.z);
-                let iso2 = nalgebra::Isometry3::new(nalgebra::Vector3::new(x[0], x[1], x[2]), nalgebra::Vector3::new(ax[0], ax[1], ax[2]));
+                let iso2 = flip(nalgebra::Isometry3::new(nalgebra::Vector3::new(x[0], x[1], x[2]), nalgebra::Vector3::new(ax[0], ax[1], ax[2])));
                 let a = jac.velocities(&iso2);
                 let b = jac.velocities_from_vector(&xi);
                 let fx = jac.velocities_fixed(x[0], x[1], x[2]);
